@@ -48,6 +48,10 @@ def respell(r, canonical: str, cwd: str, home: str) -> str:
         s = os.path.relpath(canonical, cwd)  # with ../ as needed
     elif k < 0.6 and (canonical.startswith(home + "/")):
         s = "~/" + os.path.relpath(canonical, home)
+    if os.path.isabs(s) and r.chance(0.15):
+        # an absolute detour through a directory that exists on every system (some of them are symlinks)
+        pre, ups = r.pick([("/dev/fd", 3), ("/proc/self/fd", 3), ("/dev", 1), ("/proc/self", 2), ("/usr/lib", 2), ("/dev/pts", 2), ("/tmp", 1), ("/dev/shm", 2)])
+        s = pre + "/.." * ups + s
     # lexical noise
     for _ in range(r.randint(0, 3)):
         parts = s.split("/")
